@@ -192,6 +192,31 @@ fn random_sorted_pairs(rng: &mut Rng, variant: u64, k: usize) -> M {
     m
 }
 
+/// chains A, A+(k,k), A+2(k,k), .. WITHOUT the diagonal steps in between (the end corner of one match is
+/// the start corner of the next: end and start events at the same point), mixed with random matches;
+/// 17..40 entries
+fn exact_jump_chains(rng: &mut Rng, k: usize) -> M {
+    let k = k as u32;
+    let mut m: M = vec![];
+    let nchains = rng.range(3, 7);
+    for _ in 0..nchains {
+        let (mut a, mut b) = (rng.below(12) as u32, rng.below(12) as u32);
+        for _ in 0..rng.range(2, 5) {
+            m.push((a, b));
+            a += k;
+            b += k;
+        }
+    }
+    let range = 12 + 5 * k as u64;
+    while m.len() < 17 || (m.len() < 40 && rng.chance(2, 3)) {
+        m.push((rng.below(range) as u32, rng.below(range) as u32));
+    }
+    m.sort_unstable();
+    m.dedup();
+    m.truncate(40);
+    m
+}
+
 pub fn drive(log: &mut Log) {
     let seed = log.opts.seed;
     let thorough = log.opts.thorough();
@@ -304,6 +329,15 @@ pub fn drive(log: &mut Log) {
         }
         for v in 0..3u64 {
             let m = random_sorted_pairs(&mut rng, i / 5 + v, k);
+            chains(log, &mut rng, &m, k);
+        }
+        for _ in 0..2 {
+            let m = exact_jump_chains(&mut rng, k);
+            if m.len() >= 17 && k >= 2 && m.iter().any(|&(x, y)| {
+                m.binary_search(&(x + k as u32, y + k as u32)).is_ok() && m.binary_search(&(x + 1, y + 1)).is_err()
+            }) {
+                log.oblige("exact_k_jump_chains_in_long_list");
+            }
             chains(log, &mut rng, &m, k);
         }
         log.oblige("arbitrary_match_list");
